@@ -435,12 +435,26 @@ def cmd_report(args):
             fh.write(f"| {op} | {byop[op]} | {byop_f[op]} |\n")
         fh.write("\n## Suite-passing mutants on which no check fires (triage)\n\n| id | file:line | mutation | triage |\n|---|---|---|---|\n")
         n_auto = 0
+        cats = Counter()
+        lines = []
         for m, c, t in tp:
             if not c["fired"]:
                 lab = tri.get(str(m['id'])) or auto_triage(m) or ("analysis error (exit 2): " + "; ".join(c["errors"])[:90] if c["errors"] else "")
+                if lab.startswith("now detected"):
+                    lab = "stale label: " + lab
                 n_auto += bool(lab)
-                fh.write(f"| {m['id']} | {m['file']}:{m['line']} | {m['op']} {m['desc'].replace('|', '/')} | {lab} |\n")
-        fh.write(f"\n{n_auto} of these carry a triage label.\n")
+                cat = next((k for k in ("equivalent", "outside", "miss", "not decided", "analysis error") if lab.startswith(k)), "untriaged" if not lab else "other")
+                cats[cat] += 1
+                lines.append(f"| {m['id']} | {m['file']}:{m['line']} | {m['op']} {m['desc'].replace('|', '/')} | {lab} |\n")
+        fh.writelines(lines)
+        fh.write(f"\n{n_auto} of these carry a triage label.\n\n## Triage summary of the silent suite-passing mutants\n\n| category | count | meaning |\n|---|---|---|\n")
+        meaning = {"equivalent": "no observable difference for any subscriber (independent statements swapped, flags re-assigned before use, ids compared only for equality, memory-only clean-up, double guards)",
+                   "outside": "a real change of behaviour that none of the 44 properties states (return values, logging, validation of invalid arguments, operators / back-ends no property names)",
+                   "miss": "breaks a property and is not reported: needs an analysis this framework does not have (definite assignment / None-flow, attributes) or a rule not written",
+                   "not decided": "value-level behaviour inside a clause that is deliberately decided structurally only (see the level texts in MANIFEST)",
+                   "analysis error": "the check exits 2 (anchor vanished) instead of reporting a violation", "untriaged": "", "other": ""}
+        for k, v in cats.most_common():
+            fh.write(f"| {k} | {v} | {meaning.get(k, '')} |\n")
     print(f"{n} valid; fired on {len(fired)}; suite-passing {len(tp)}: fired {len(tp_f)}, silent {len(tp) - len(tp_f)}")
 
 
